@@ -122,7 +122,9 @@ def cases(tier: str, seed: int) -> list[dict]:
                            "off": off, "style": rng.choice(styles_for(0, off)), "onestep": -1}))
     vias = ["memory", "file", "dask", "memory", "emsopen"]      # how the dataset that is saved is held (viafile.hold)
     for k, (w, e) in enumerate(worlds):
-        out.append({"src": "gen", "world": dict(w, via=vias[k % len(vias)]), "events": [e]})
+        # (decoy: a look-alike dataset, and for SHOC standard a hand-made override of the coordinate names, were handled
+        # earlier in the same process - see worlds.bind)
+        out.append({"src": "gen", "world": dict(w, via=vias[k % len(vias)], **({"decoy": True} if k % 2 == 0 else {})), "events": [e]})
     return out
 
 
